@@ -2,6 +2,7 @@
 import Verif.Common.Proto
 import Verif.C03.Model
 import Verif.C03.LexSpec
+import Verif.C03.Api
 open Lean Verif.Proto Verif.C03 Verif.Codec
 
 namespace Verif.C03.Driver
@@ -151,6 +152,8 @@ def handle (j : Json) : Except String Json := do
       | some ts => jList jTok ts
       | none => jErr "EDSSyntaxError"
     let dec : Json := if api = "decode" then jRes jEds (Verif.C03.Lex.decodeText text)
+      else if api = "load" then jRes (jList jEds) (Verif.C03.Lex.loadFileText text)
+      else if api = "loadpath" then jRes (jList jEds) (Verif.C03.Lex.loadPathText text)
       else jRes (jList jEds) (Verif.C03.Lex.loadsText text)
     pure (Json.mkObj [("toks", ltoks), ("dec", dec)])
   | "json" => do
@@ -158,15 +161,19 @@ def handle (j : Json) : Except String Json := do
     let p ← getBool j "properties"
     let l ← getBool j "lnk"
     let d := toDict p l e
+    let i ← getBool j "indent"
     pure (Json.mkObj [("dict", Json.mkObj [("top", optCps d.top), ("nodes", jList jJNode d.nodes)]),
-                      ("dec", jEds (fromDict d))])
+                      ("dec", jEds (fromDict d)),
+                      ("native", jRes cps (nativeOfJson p l true i e))])
   | "penman" => do
     let e ← ofEds (← j.getObjVal? "eds")
     let p ← getBool j "properties"
     let l ← getBool j "lnk"
     if !e.targetsOk then pure (jErr "KeyError") else
     let ts := toTriples p l e
-    pure (Json.mkObj [("triples", jList jTriple ts), ("dec", jRes jPen (fromTriples ts))])
+    let i ← getBool j "indent"
+    pure (Json.mkObj [("triples", jList jTriple ts), ("dec", jRes jPen (fromTriples ts)),
+                      ("native", jRes optCps (nativeOfPenman p l true i e))])
   | "churn" => do
     -- a sequence of different graphs, each through all three codecs (the model is pure: no state between them)
     let es ← (← getArr j "docs").mapM ofEds
@@ -177,6 +184,53 @@ def handle (j : Json) : Except String Json := do
       Json.mkObj [("text", cps (textE o e)),
                   ("dict", Json.mkObj [("top", optCps d.top), ("nodes", jList jJNode d.nodes)]),
                   ("triples", jList jTriple (toTriples o.properties o.lnk e))]) es)
+  | "api" => do
+    -- the public functions: write path x read path x the `indent` argument
+    let es ← (← getArr j "docs").mapM ofEds
+    let p ← getBool j "properties"
+    let l ← getBool j "lnk"
+    let fmt ← getStr j "fmt"
+    let read ← getStr j "read"
+    if fmt = "json" then
+      let ds := jsonApi p l es
+      if read = "decode" then
+        match ds with
+        | d :: _ => pure (Json.mkObj [("dec", jOk (jEds d))])
+        | [] => throw "decode of no graph"
+      else pure (Json.mkObj [("dec", jOk (jList jEds ds))])
+    else if fmt = "penman" then
+      if es.any (fun e => !e.targetsOk) then pure (jErr "KeyError") else
+      let rs := es.mapM (fun e => fromTriples (toTriples p l e))
+      if read = "decode" then
+        match rs with
+        | .ok (r :: _) => pure (Json.mkObj [("dec", jOk (jPen r))])
+        | .ok [] => throw "decode of no graph"
+        | .error er => pure (Json.mkObj [("dec", jErr (errTag er))])
+      else pure (Json.mkObj [("dec", jRes (jList jPen) rs)])
+    else
+    let s ← getBool j "show_status"
+    let ia : IndentArg ← (match j.getObjVal? "indent" with
+      | .ok Json.null => pure IndentArg.none
+      | .ok (Json.bool b) => pure (IndentArg.bool b)
+      | .ok v => do pure (IndentArg.int (← v.getInt?))
+      | .error e => throw e)
+    let write ← getStr j "write"
+    let text : Except Err Str ←
+      (if write = "encode" then
+        match es with
+        | [e] => pure (encodeApi p l s ia e)
+        | _ => throw "encode needs one graph"
+      else if write = "dumps" then pure (dumpsApi p l s ia es)
+      else pure (dumpApi p l s ia es))
+    match text with
+    | .error er => pure (jErr (errTag er))
+    | .ok t =>
+      let dec : Json :=
+        if read = "decode" then jRes jEds (Verif.C03.Lex.decodeText t)
+        else if read = "loads" then jRes (jList jEds) (Verif.C03.Lex.loadsText t)
+        else if read = "load" then jRes (jList jEds) (Verif.C03.Lex.loadFileText t)
+        else jRes (jList jEds) (Verif.C03.Lex.loadPathText t)
+      pure (Json.mkObj [("text", cps t), ("dec", dec)])
   | "triples" => do
     let ts ← (← getArr j "triples").mapM ofTriple
     pure (jRes jPen (fromTriples ts))
